@@ -3,6 +3,7 @@ package coord
 import (
 	"fmt"
 	"os"
+	"path/filepath"
 	"sort"
 	"strconv"
 	"time"
@@ -61,14 +62,18 @@ func selfDeterminism(ids []string) int {
 		t0 := time.Now()
 		execs, diverged := 0, 0
 		for s := 0; s < nSeeds; s++ {
-			seed := uint64(1000 + 7*s)
+			seed := uint64(1000 + 7*(s+envInt("VERIF_DET_FIRST", 0)))
 			p, err := prepareSeed(cfg, "quick", seed, known)
 			if err != nil {
 				fmt.Fprintln(os.Stderr, "verif: harness trouble:", err)
 				return 2
 			}
 			var ref map[int]string
-			for _, l := range layouts {
+			for li, l := range layouts {
+				if os.Getenv("VERIF_DET_TRACE") != "" {
+					// keep every run's log lines per layout: a divergence can then be located
+					os.Setenv("VERIF_TRACEFILE", filepath.Join(os.Getenv("VERIF_DET_TRACE"), fmt.Sprintf("%s-s%d-L%d", id, seed, li)))
+				}
 				os.Setenv("VERIF_WORKERS", strconv.Itoa(l.workers))
 				os.Setenv("VERIF_NODE_GOMAXPROCS", strconv.Itoa(l.gomaxprocs))
 				out := newOutcome(id, "quick", cfg.Level)
